@@ -5,8 +5,8 @@
 set -u
 SEED=$1; PROP=$2; TIER=${3:-quick}
 SD=/verif/seeded/$SEED
-WT=/tmp/cs/$SEED/repo; H=/tmp/cs/$SEED/harness; VR=/tmp/cs/$SEED/verif
-rm -rf /tmp/cs/$SEED; mkdir -p /tmp/cs/$SEED
+D=/tmp/cs/$SEED.$PROP; WT=$D/repo; H=$D/harness; VR=$D/verif
+rm -rf $D; mkdir -p $D
 git -C /repo worktree prune
 git -C /repo worktree add --detach $WT HEAD >/dev/null 2>&1 || { echo "$SEED $PROP ERROR worktree"; exit 2; }
 if ! (cd $WT && (git apply $SD/patch.diff 2>/dev/null || git apply --3way $SD/patch.diff 2>/dev/null)); then
@@ -27,4 +27,4 @@ else
   else echo "$SEED $PROP INCONCLUSIVE rc=$rc $(grep -m1 INCONCLUSIVE $VR/out/stderr.txt | cut -c1-300)"; fi
 fi
 mkdir -p /tmp/csout; cp $VR/out/stderr.txt /tmp/csout/$SEED.$PROP.stderr.txt 2>/dev/null
-[ -n "${KEEP:-}" ] || { git -C /repo worktree remove --force $WT >/dev/null 2>&1; rm -rf /tmp/cs/$SEED; }
+[ -n "${KEEP:-}" ] || { git -C /repo worktree remove --force $WT >/dev/null 2>&1; rm -rf $D; }
